@@ -537,6 +537,27 @@ impl HExec {
             .collect();
         let mem: Vec<String> = (0..self.cfg.keys).filter(|k| cache.memory().contains(k)).map(|k| k.to_string()).collect();
         let disk: Vec<String> = (0..self.cfg.keys).filter(|k| cache.storage().may_contains(k)).map(|k| k.to_string()).collect();
+        // the entries (key.version) this operation put on the device, decoded from the data writes
+        let went: Vec<String> = if self.cfg.domain == "hyb" && self.cfg.bsize == BLOCK {
+            wl.iter()
+                .filter(|w| w.partition >= first_block && w.offset > 0)
+                .flat_map(|w| {
+                    let d = crate::crash::describe(w, self.cfg.tomb);
+                    d.strip_prefix("data:")
+                        .map(|es| {
+                            es.split(',')
+                                .filter_map(|e| {
+                                    let f: Vec<&str> = e.split('.').collect();
+                                    if f.len() == 6 { Some(format!("{}.{}", f[3], f[4])) } else { None }
+                                })
+                                .collect::<Vec<_>>()
+                        })
+                        .unwrap_or_default()
+                })
+                .collect()
+        } else {
+            vec![]
+        };
         let _ = write!(
             line,
             " ret={ret} w={wbytes} ev={} wlog={} mem={} disk={} pending={}",
@@ -546,6 +567,9 @@ impl HExec {
             show(disk),
             self.sim.pending_ids().len()
         );
+        if self.cfg.domain == "hyb" && self.cfg.bsize == BLOCK {
+            let _ = write!(line, " went={}", show(went));
+        }
         if self.cfg.domain == "blk" {
             // the block manager's own transitions during this operation (verif hook)
             let evs: Vec<String> = foyer_storage::verif::verif_events::take()
